@@ -32,6 +32,7 @@ type c14Case struct {
 	Chal   string `json:"chal,omitempty"`
 	TLSVer int    `json:"tlsver,omitempty"` // 0 none, 12, 13
 	Twice  bool   `json:"twice,omitempty"`  // two exchanges with one Auth object (nonce freshness)
+	Redial bool   `json:"redial,omitempty"` // through mail.Client: dial, close, dial again on the SAME Client (two connections)
 }
 
 var c14Mechs = []string{"PLAIN", "LOGIN", "CRAM-MD5", "XOAUTH2", "SCRAM-SHA-1", "SCRAM-SHA-256"}
@@ -131,6 +132,11 @@ func c14Exec(r *vf.Run, k c14Case) []finding {
 		rounds = 2
 	}
 	var sharedAuth smtp.Auth
+	var sharedClient *mail.Client
+	var curConn *refsmtp.Conn
+	if k.Redial {
+		rounds = 2
+	}
 	for round := 0; round < rounds; round++ {
 		caps := []string{"AUTH " + mechs}
 		if k.TLSVer != 0 {
@@ -149,16 +155,20 @@ func c14Exec(r *vf.Run, k c14Case) []finding {
 				cfg.MinVersion = tls.VersionTLS13
 			}
 			conn.TLSConfig = cfg
-			rig := &hx.Rig{Mk: func(n int) *refsmtp.Conn { return conn }}
-			typ := mail.SMTPAuthSCRAMSHA256PLUS
-			if k.Mech == "SCRAM-SHA-1-PLUS" {
-				typ = mail.SMTPAuthSCRAMSHA1PLUS
-			}
-			cl, err := mail.NewClient(hx.Host, mail.WithDialContextFunc(rig.Dial), mail.WithHELO("client.example.test"), mail.WithTLSConfig(hx.ClientTLS(hx.Host)),
-				mail.WithTLSPolicy(mail.TLSMandatory), mail.WithSMTPAuth(typ), mail.WithUsername(k.User), mail.WithPassword(k.Pass))
-			if err != nil {
-				r.HarnessError("C14 NewClient: %v", err)
-				return nil
+			curConn = conn
+			rig := &hx.Rig{Mk: func(n int) *refsmtp.Conn { return curConn }}
+			types := map[string]mail.SMTPAuthType{"SCRAM-SHA-1-PLUS": mail.SMTPAuthSCRAMSHA1PLUS, "SCRAM-SHA-256-PLUS": mail.SMTPAuthSCRAMSHA256PLUS, "PLAIN": mail.SMTPAuthPlain,
+				"LOGIN": mail.SMTPAuthLogin, "CRAM-MD5": mail.SMTPAuthCramMD5, "XOAUTH2": mail.SMTPAuthXOAUTH2, "SCRAM-SHA-1": mail.SMTPAuthSCRAMSHA1, "SCRAM-SHA-256": mail.SMTPAuthSCRAMSHA256}
+			cl := sharedClient
+			if cl == nil || !k.Redial {
+				var err error
+				cl, err = mail.NewClient(hx.Host, mail.WithDialContextFunc(rig.Dial), mail.WithHELO("client.example.test"), mail.WithTLSConfig(hx.ClientTLS(hx.Host)),
+					mail.WithTLSPolicy(mail.TLSMandatory), mail.WithSMTPAuth(types[k.Mech]), mail.WithUsername(k.User), mail.WithPassword(k.Pass))
+				if err != nil {
+					r.HarnessError("C14 NewClient: %v", err)
+					return nil
+				}
+				sharedClient = cl
 			}
 			pan, pw := vf.Guard(func() { authErr = cl.DialWithContext(context.Background()) })
 			if pan {
@@ -233,7 +243,7 @@ func c14Exec(r *vf.Run, k c14Case) []finding {
 				add("weak-client-nonce/"+k.Mech, "client nonce %q carries less than 18 bytes", trace.CNonce)
 			}
 		}
-		if right && adm && k.TLSVer != 0 && trace.Accepted {
+		if right && adm && k.TLSVer != 0 && trace.Accepted && strings.HasSuffix(k.Mech, "-PLUS") {
 			wantCB := "p=tls-unique,,"
 			if k.TLSVer == 13 {
 				wantCB = "p=tls-exporter,,"
@@ -285,7 +295,7 @@ func init() {
 	vf.Register(&vf.Check{
 		ID: "C14", Title: "SASL mechanisms interoperate with conforming servers",
 		Run: func(r *vf.Run) {
-			r.SetRule("user names and passwords/tokens: ALL strings of length 0..2 (thorough 0..3 for users) over {a B = , SP é 日 \\x01} plus a 300-byte value, as (user, password) pairs with the right and with two kinds of wrong server-side credentials, for PLAIN, LOGIN, CRAM-MD5 (× challenge strings), XOAUTH2, SCRAM-SHA-1, SCRAM-SHA-256; SCRAM parameter sweeps (pseudo-random salts of length 1..20 and 64, all salts of length 1..3 over {00 01 '=' ff} and 16-byte salts framed by / made of those bytes, iteration counts {1,2,3,4,4095,4096,4097,10000,20000} (thorough: every i<=512 and every 97th up to 20000), server nonce suffixes incl. '=' and 24 printable chars); SCRAM-SHA-1/256-PLUS over real TLS 1.2 (tls-unique) and TLS 1.3 (tls-exporter) handshakes; two exchanges on one Auth object (nonce freshness); the verdict of reference verifiers written from the RFCs (self-tested on RFC 5802/7677/2195/4616/6070 vectors) must be 'accepted' exactly when credentials are equal; distinct by case tuple")
+			r.SetRule("user names and passwords/tokens: ALL strings of length 0..2 (thorough 0..3 for users) over {a B = , SP é 日 \\x01} plus a 300-byte value, as (user, password) pairs with the right and with two kinds of wrong server-side credentials, for PLAIN, LOGIN, CRAM-MD5 (× challenge strings), XOAUTH2, SCRAM-SHA-1, SCRAM-SHA-256; SCRAM parameter sweeps (pseudo-random salts of length 1..20 and 64, all salts of length 1..3 over {00 01 '=' ff} and 16-byte salts framed by / made of those bytes, iteration counts {1,2,3,4,4095,4096,4097,10000,20000} (thorough: every i<=512 and every 97th up to 20000), server nonce suffixes incl. '=' and 24 printable chars); SCRAM-SHA-1/256-PLUS over real TLS 1.2 (tls-unique) and TLS 1.3 (tls-exporter) handshakes; two exchanges on one Auth object (nonce freshness); all mechanisms through mail.Client over real TLS 1.2/1.3 with a re-dial on the same Client (two connections, fresh channel binding each); the verdict of reference verifiers written from the RFCs (self-tested on RFC 5802/7677/2195/4616/6070 vectors) must be 'accepted' exactly when credentials are equal; distinct by case tuple")
 			r.Assume("admissible credentials per mechanism: PLAIN non-empty without NUL; XOAUTH2 without ^A; SCRAM non-empty without control characters (SASLprep/PRECIS prohibit them); Unicode restricted to strings on which SASLprep and PRECIS OpaqueString agree",
 				"an empty server nonce suffix is not exercised (the property is silent)")
 			alpha := []string{"a", "B", "=", ",", " ", "é", "日", "\x01"}
@@ -376,6 +386,12 @@ func init() {
 						}
 						cases = append(cases, k)
 					}
+				}
+			}
+			for _, mech := range []string{"SCRAM-SHA-1-PLUS", "SCRAM-SHA-256-PLUS", "PLAIN", "LOGIN", "CRAM-MD5", "XOAUTH2", "SCRAM-SHA-1", "SCRAM-SHA-256"} {
+				for _, ver := range []int{12, 13} {
+					cases = append(cases, c14Case{Mech: mech, User: "user", Pass: "pencil", SUser: "user", SPass: "pencil", TLSVer: ver, Redial: true},
+						c14Case{Mech: mech, User: "us,er=x", Pass: "p=,w d", SUser: "us,er=x", SPass: "p=,w d", TLSVer: ver, Redial: true})
 				}
 			}
 			r.Extra("credential_strings", len(strs))
